@@ -25,6 +25,7 @@ from .sym import Poly
 from .spline import Rat
 from .kerneldef import Extractor, Unsupported
 from .report import Finding
+from .pcacheck import show_terms
 from .plscheck import (Tail, NotUnderstood, exec_paths, vdot, vsame, msame, vshow, mshow, vscale, vadd, proportional, expand, ONE, ZERO, N, rel, settled,
                        report_partial, report_thresholds)
 
@@ -487,10 +488,10 @@ def scaling(chk, prog, ssn, blk):
         chk.instance(R, '%s CPCA: %s = sum over blocks, rows, columns of (Eb[k][i][j] / scaling_factor[k])^2, after preprocessing and before the first component' %
                      (f.unit.where(seen_loop), ssn))
     else:
-        chk.instance(R, '%s CPCA: %s accumulates %r%s' % (f.unit.where(seen_loop), ssn, terms, '' if order_ok else ' (at the wrong place)'), 'refuted')
+        chk.instance(R, '%s CPCA: %s accumulates %s%s' % (f.unit.where(seen_loop), ssn, show_terms(terms), '' if order_ok else ' (at the wrong place)'), 'refuted')
         chk.violation(Finding('CPCA.scaling', rel(f.file), f.name, 'ss', f.unit.where(seen_loop),
-                              'CPCA: the total sum of squares `%s` is accumulated as %r%s; expected (cell / scaling factor of its block)^2 over every cell of every '
-                              'preprocessed block, before any deflation' % (ssn, terms, '' if order_ok else ', at the wrong place')))
+                              'CPCA: the total sum of squares `%s` is accumulated as %s%s; expected (cell / scaling factor of its block)^2 over every cell of every '
+                              'preprocessed block, before any deflation' % (ssn, show_terms(terms), '' if order_ok else ', at the wrong place')))
     # preprocessing hand-over
     pc_ = [n for n in walk(f.body) if n.get('kind') == 'CallExpr' and callee_name(n) == 'TensorPreprocess']
     if len(pc_) == 1:
